@@ -1,4 +1,5 @@
 import CCV.Drv.C13
+import CCV.Drv.C05
 import CCV.Drv.C14
 import CCV.Drv.C16
 import CCV.Drv.C04
@@ -12,6 +13,7 @@ open CCV.Drv
 def dispatch (line : String) : String :=
   match line.trimAscii.toString.splitOn " " with
   | "C13" :: rest => C13.handle rest
+  | "C05" :: rest => C05.handle rest
   | "C14" :: rest => C14.handle rest
   | "C16" :: rest => C16.handle rest
   | "C04" :: rest => C04.handle rest
